@@ -82,7 +82,7 @@ pub struct R<'a> {
 }
 
 pub fn apply_edits(src: &str, r: Range<usize>, mut edits: Vec<(Range<usize>, String)>) -> String {
-    edits.sort_by_key(|(rg, _)| rg.start);
+    edits.sort_by_key(|(rg, _)| (rg.start, rg.end));
     let mut out = String::new();
     let mut pos = r.start;
     for (rg, rep) in edits {
@@ -169,7 +169,30 @@ impl<'a> R<'a> {
                 }
             }
         }
+        if let Expr::Assign(asg) = e {
+            // v[i][j] = x  ->  qx_set2(&mut v, i, j, x)   (verified helper: IndexMut on Vec then on the array)
+            if let Expr::Index(outer) = &*asg.left {
+                if let Expr::Index(inner) = &*outer.expr {
+                    self.note("R8 v[i][j] = x -> qx_set2(&mut v, i, j, x) (verified helper with IndexMut semantics)");
+                    return Some(format!(
+                        "{{ let qx_si = {}; let qx_sj = {}; let qx_sx = {}; qx_set2(&mut {}, qx_si, qx_sj, qx_sx) }}",
+                        self.expr(&inner.index),
+                        self.expr(&outer.index),
+                        self.expr(&asg.right),
+                        self.expr(&inner.expr)
+                    ));
+                }
+            }
+        }
         if let Expr::MethodCall(mc) = e {
+            if mc.method == "drain" && mc.args.len() == 1 {
+                if let Expr::Range(rg) = &mc.args[0] {
+                    if let (Some(a), Some(b)) = (&rg.start, &rg.end) {
+                        self.note("R8 vec.drain(a..b) -> qx_drain(&mut vec, a, b) (verified helper with std semantics)");
+                        return Some(format!("{{ let qx_da = {}; let qx_db = {}; qx_drain(&mut {}, qx_da, qx_db) }}", self.expr(a), self.expr(b), self.expr(&mc.receiver)));
+                    }
+                }
+            }
             if let Some(spec) = self.opts.get("mrename") {
                 for ent in spec.split(',') {
                     if let Some((from, to)) = ent.split_once("=>") {
@@ -211,6 +234,14 @@ impl<'a> R<'a> {
         }
         if let Expr::Macro(m) = e {
             let name = m.mac.path.segments.last().map(|s| s.ident.to_string()).unwrap_or_default();
+            if name == "assert" {
+                if let Ok(args) = m.mac.parse_body_with(Punctuated::<Expr, Token![,]>::parse_terminated) {
+                    if let Some(c) = args.first() {
+                        self.note("R12 `assert!(c)` -> qx_assert(c) (prelude: requires c — the runtime assertion is an obligation)");
+                        return Some(format!("qx_assert({})", self.expr(c)));
+                    }
+                }
+            }
             if matches!(name.as_str(), "todo" | "unimplemented" | "unreachable" | "panic") {
                 self.note(format!("R12 `{}!()` -> qx_unreachable() (prelude: requires false — reaching it is an obligation)", name));
                 return Some("qx_unreachable()".to_string());
@@ -289,7 +320,63 @@ impl<'r, 'a, 'ast> Visit<'ast> for Coll<'r, 'a> {
             visit::visit_type(self, t)
         }
     }
+    fn visit_stmt(&mut self, st: &'ast Stmt) {
+        if let Stmt::Macro(sm) = st {
+            let name = sm.mac.path.segments.last().map(|s| s.ident.to_string()).unwrap_or_default();
+            if name == "assert" {
+                if let Ok(args) = sm.mac.parse_body_with(Punctuated::<Expr, Token![,]>::parse_terminated) {
+                    if let Some(c) = args.first() {
+                        self.r.note("R12 `assert!(c)` -> qx_assert(c) (prelude: requires c — the runtime assertion is an obligation)");
+                        self.edits.push((range(st.span()), format!("qx_assert({});", self.r.expr(c))));
+                        return;
+                    }
+                }
+            }
+            if matches!(name.as_str(), "todo" | "unimplemented" | "unreachable" | "panic") {
+                self.r.note(format!("R12 `{}!()` -> qx_unreachable() (prelude: requires false — reaching it is an obligation)", name));
+                self.edits.push((range(st.span()), "qx_unreachable::<()>();".to_string()));
+                return;
+            }
+        }
+        visit::visit_stmt(self, st)
+    }
+    fn visit_generics(&mut self, g: &'ast syn::Generics) {
+        // R6: monomorphisation — the generic parameter named in `strip_generic` is provided by the unit as a type alias
+        if let Some(name) = self.r.opts.get("strip_generic") {
+            if g.lt_token.is_some() {
+                let keep: Vec<String> = g
+                    .params
+                    .iter()
+                    .filter(|p| match p {
+                        syn::GenericParam::Type(t) => t.ident != name,
+                        _ => true,
+                    })
+                    .map(|p| self.r.verb(p.span()).to_string())
+                    .collect();
+                if keep.len() != g.params.len() {
+                    self.r.note(format!("R6 generic parameter `{}` instantiated (type alias in the unit)", name));
+                    let start = g.lt_token.unwrap().span().byte_range().start;
+                    let end = g.gt_token.unwrap().span().byte_range().end;
+                    let txt = if keep.is_empty() { String::new() } else { format!("<{}>", keep.join(", ")) };
+                    self.edits.push((start..end, txt));
+                    return;
+                }
+            }
+        }
+        visit::visit_generics(self, g)
+    }
     fn visit_path_segment(&mut self, seg: &'ast syn::PathSegment) {
+        if let Some(name) = self.r.opts.get("strip_generic") {
+            if let syn::PathArguments::AngleBracketed(ab) = &seg.arguments {
+                let only = ab.args.len() == 1
+                    && matches!(&ab.args[0], syn::GenericArgument::Type(syn::Type::Path(tp)) if tp.path.is_ident(name));
+                if only {
+                    self.edits.push((range(ab.span()), String::new()));
+                    self.r.note(format!("R6 generic parameter `{}` instantiated (type alias in the unit)", name));
+                    return;
+                }
+            }
+        }
         // R9b: type-name substitution (prelude stand-ins for opaque crate types)
         if let Some(spec) = self.r.opts.get("tysubst") {
             let id = seg.ident.to_string();
@@ -550,11 +637,60 @@ fn render_fn(r: &R, fr: FnRef, contract: &str, as_name: Option<&str>) -> String 
     if mut_self {
         r.renames.borrow_mut().insert("self".into(), "self_".into());
     }
-    let body = r.block(fr.block());
+    let body = {
+        // ghost proof blocks may be injected at statement anchors (annotation only: no executable token is touched)
+        let blk = fr.block();
+        let mut c = Coll { r, edits: vec![] };
+        c.visit_block(blk);
+        if let Some(t) = r.opts.get("inject_before_tail") {
+            if let Some(Stmt::Expr(e, None)) = blk.stmts.last() {
+                let st = range(e.span()).start;
+                c.edits.push((st..st, format!("proof {{ {} }}\n        ", t)));
+                r.note("ghost proof block injected before the tail expression");
+            } else {
+                r.err("inject_before_tail: function has no tail expression");
+            }
+        }
+        if let Some(spec) = r.opts.get("inject_after") {
+            for ent in spec.split(";;") {
+                if let Some((name, txt)) = ent.split_once(':') {
+                    let mut found = false;
+                    for st in &blk.stmts {
+                        if let Stmt::Local(l) = st {
+                            let mut ids = vec![];
+                            frag::pat_idents(&l.pat, &mut ids);
+                            if ids.len() == 1 && ids[0] == name.trim() && !found {
+                                // the *last* let of that name wins when shadowed: keep scanning
+                            }
+                            if ids.len() == 1 && ids[0] == name.trim() {
+                                found = true;
+                                let en = range(st.span()).end;
+                                c.edits.retain(|(rg, t)| !(rg.start == en && rg.end == en && t.starts_with("\n        proof {")));
+                                c.edits.push((en..en, format!("\n        proof {{ {} }}", txt)));
+                            }
+                        }
+                    }
+                    if !found {
+                        r.err(format!("lost anchor: inject_after: no `let {}`", name.trim()));
+                    } else {
+                        r.note(format!("ghost proof block injected after `let {}`", name.trim()));
+                    }
+                }
+            }
+        }
+        apply_edits(r.src, range(blk.span()), c.edits)
+    };
     r.renames.borrow_mut().remove("self");
+    let ghosts: String = r
+        .opts
+        .get("ghost_params")
+        .map(|g| g.split(',').filter_map(|e| e.split_once('=')).map(|(a, b)| format!("let ghost {} = {};\n        ", a.trim(), b.trim())).collect())
+        .unwrap_or_default();
     let body = if mut_self {
         // R1
-        format!("{{\n        let mut self_ = self;\n        {}\n    }}", body)
+        format!("{{\n        let mut self_ = self;\n        {}{}\n    }}", ghosts, body)
+    } else if !ghosts.is_empty() {
+        format!("{{\n        {}{}\n    }}", ghosts, body)
     } else {
         body
     };
